@@ -86,6 +86,9 @@ func (k msgServer) depositForBurn(
 	if !strings.EqualFold(denom.Denom, burnToken) {
 		return 0, errors.Wrapf(types.ErrBurn, "burning denom: %s is not supported", burnToken)
 	}
+	if err := sdk.ValidateDenom(burnToken); err != nil {
+		return 0, errors.Wrapf(types.ErrBurn, "burning denom: %s is not supported", burnToken)
+	}
 
 	// check if burning/minting is paused
 	paused, _ := k.GetBurningAndMintingPaused(ctx)
